@@ -20,7 +20,7 @@ impl SkimItem for NthItem {
     fn get_matching_ranges(&self) -> Option<&[(usize, usize)]> { self.ranges.as_deref() }
 }
 
-const TCH: [char; 20] = ['a', 'b', 'c', 'A', 'B', ' ', '-', '中', 'x', '\t', 'd', 'é', 'É', '\u{130}', '\u{212a}', 'k', '$', '^', '!', '\''];
+const TCH: [char; 21] = ['a', 'b', 'c', 'A', 'B', ' ', '-', '中', 'x', '\t', 'd', 'é', 'É', '\u{130}', '\u{212a}', 'k', '$', '^', '!', '\'', '\\'];
 const QCH: [char; 12] = ['a', 'b', 'A', 'c', 'x', '中', '\'', '^', '$', '!', '\\', ' '];
 
 fn gen_text(r: &mut Rng) -> String { (0..r.below(12)).map(|_| *r.pick(&TCH)).collect() }
@@ -45,7 +45,8 @@ fn gen_query(r: &mut Rng) -> String {
     for a in 0..nalt {
         if a > 0 { q.push_str(*r.pick(&[" | ", "  |  ", " |  ", " |", "| ", "|"])); }
         let nt = 1 + r.below(3);
-        for t in 0..nt { if t > 0 { q.push_str(*r.pick(&[" ", "  "])); } q.push_str(&gen_term(r)); }
+        // between terms: blanks, or (rarely) runs of backslashes before a blank: only a backslash directly before the blank escapes it
+        for t in 0..nt { if t > 0 { q.push_str(if r.chance(1, 10) { *r.pick(&["\\ ", "\\\\ ", "\\\\\\ ", "\\\\  "]) } else { *r.pick(&[" ", "  "]) }); } q.push_str(&gen_term(r)); }
     }
     if r.chance(1, 6) { q.push_str(*r.pick(&[" ", " |", " | ", "\\", "\\ ", "\\  ", "\\ |"])); }
     q
@@ -150,11 +151,27 @@ fn main() {
                     }
                     else { gen_query(&mut r) };
         // short texts built from the query itself: the text is exactly the term's body, or that plus one character; or empty
-        if r.chance(1, 6) {
+        if r.chance(1, 4) {
             let body: String = query.chars().filter(|c| !" |'^$!\\".contains(*c)).collect();
             // the query read as plain text: escaped blanks become blanks, sigils and bars go
             let plain: String = query.replace("\\ ", " ").chars().filter(|c| !"|'^$!\\".contains(*c)).collect();
-            text = match r.below(7) { 5 => plain, 6 => format!("{}{}", plain, r.pick(&TCH)), 0 => String::new(), 1 => body, 2 => format!("{}{}", body, r.pick(&TCH)), 3 => format!("{}{}", r.pick(&TCH), body), _ => body.chars().rev().collect() };
+            let plain_bs: String = query.replace("\\ ", " ").chars().filter(|c| !"|'^$!".contains(*c)).collect();
+            // the body in the other letter case, and spread out between other characters: what separates smart / respect / ignore
+            let swap = |s: &str| -> String { s.chars().map(|c| if c.is_ascii_uppercase() { c.to_ascii_lowercase() } else if c.is_ascii_lowercase() { c.to_ascii_uppercase() } else { c }).collect() };
+            let spread = |s: &str, r: &mut Rng| -> String { let mut o = String::new(); for c in s.chars() { if r.chance(1, 2) { o.push(*r.pick(&['x', '-', 'd', ' '])); } o.push(c); } o };
+            text = match r.below(13) { 9 => swap(&body), 10 => body.to_ascii_lowercase(), 11 => { let t = swap(&body); spread(&t, &mut r) }, 12 => { let t = body.to_ascii_lowercase(); spread(&t, &mut r) }, 7 => plain_bs.clone(), 8 => format!("{}{}", r.pick(&TCH), plain_bs), 5 => plain, 6 => format!("{}{}", plain, r.pick(&TCH)), 0 => String::new(), 1 => body, 2 => format!("{}{}", body, r.pick(&TCH)), 3 => format!("{}{}", r.pick(&TCH), body), _ => body.chars().rev().collect() };
+        }
+        // letter case is what separates smart / respect / ignore and the algorithms' defaults: the term's letters in another case
+        if !regex_mode && query.chars().any(|c| c.is_ascii_alphabetic()) && r.chance(1, 4) {
+            let body: String = query.chars().filter(|c| !" |'^$!\\".contains(*c)).collect();
+            let t: String = match r.below(3) {
+                0 => body.to_ascii_lowercase(),
+                1 => body.to_ascii_uppercase(),
+                _ => body.chars().map(|c| if c.is_ascii_uppercase() { c.to_ascii_lowercase() } else { c.to_ascii_uppercase() }).collect(),
+            };
+            let mut o = String::new();
+            for c in t.chars() { if r.chance(1, 3) { o.push(*r.pick(&['x', '-', 'd', ' '])); } o.push(c); }
+            text = o;
         }
         // --nth ranges on character boundaries (C08 focus: more often, any order)
         let bounds: Vec<usize> = text.char_indices().map(|(i, _)| i).chain(std::iter::once(text.len())).collect();
